@@ -140,6 +140,19 @@ def matrix(rng, tier, mk_terms, add, nts=(2, 3, 4), nt1=False, reps=1):
                         one_n(rng.choice(fam[f]), mk, c, n_)
 
 
+def lag_jobs(rng, tier, mk_terms, add):
+    """More threads than one lag period (4) with Min / Auto chunks and enough input that the
+    workers spawned first make progress before the spawning thread computes the next chunk size:
+    the only way to reach the growth rule of next_chunk_size and workers with different chunk sizes."""
+    for i in range(24 if tier == "quick" else 240):
+        src = rng.choice(("vec", "iter", "slice", "range", "vec"))
+        sh = rng.choice(["m", "f", "o", "l", "mf", "of", "lf", ""][: (8 if src in ("vec", "iter") else 4)])
+        p = gen_prog(rng, src=src, shape=sh, n=rng.choice([40, 64]), nt=rng.choice([6, 7, 8, 12, None]),
+                     cs=rng.choice([("csmin", 1), ("csmin", 1), ("csmin", 2), ("csmin", 3), None]))
+        p["term"] = mk_terms[i % len(mk_terms)](rng, src, shape_of(p))
+        add(norm(p), "rand")
+
+
 def big_jobs(rng, tier, mk_terms, add):
     """Programs over 7*10^4..3*10^5 elements (digests instead of sequences): thresholds such as
     2^16 / 2^17 elements and the growth of SplitVec fragments are only crossed here. Systematic
@@ -217,6 +230,7 @@ def jobs_for(prop, tier, seed):
         jobs.append(mk_job(len(jobs) + 1, p, mode or mode_mix(rng), rng, **kw))
 
     if prop == "C01":
+        lag_jobs(rng, tier, [lambda r, s_, sh: collect_term(r, s_, sh)], add)
         single_worker_jobs(rng, tier, add)
         matrix(rng, tier, [lambda r, s_, sh: collect_term(r, s_, sh)], add, reps=3)
         big_jobs(rng, tier, [lambda r, s_, sh: {"k": "collect_vec"}, lambda r, s_, sh: {"k": "collect"},
@@ -225,20 +239,24 @@ def jobs_for(prop, tier, seed):
         for _ in range(n):
             add(with_term(rng, lambda r, s, sh: collect_term(r, s, sh)))
     elif prop == "C02":
+        lag_jobs(rng, tier, [find_term], add)
         matrix(rng, tier, [find_term], add, reps=3)
         for _ in range(n):
             add(with_term(rng, find_term, sizes=(0, 1, 2, 5, 8, 13, 24, 40, 64)))
     elif prop == "C03":
+        lag_jobs(rng, tier, [lambda r, s_, sh: {"k": "reduce", "op": r.choice(["add", "xor", "min", "max"])}], add)
         matrix(rng, tier, [reduce_term, lambda r, s_, sh: {"k": "reduce", "op": r.choice(["add", "xor", "min", "max"])}], add, reps=2)
         big_jobs(rng, tier, [lambda r, s_, sh: {"k": "reduce", "op": "add"}], add)
         for _ in range(n):
             add(with_term(rng, reduce_term))
     elif prop == "C04":
+        lag_jobs(rng, tier, [lambda r, s_, sh: {"k": "count"}, lambda r, s_, sh: {"k": "for_each"}], add)
         matrix(rng, tier, [lambda r, s_, sh: {"k": "count"}, lambda r, s_, sh: {"k": "for_each"}], add, reps=2)
         big_jobs(rng, tier, [lambda r, s_, sh: {"k": "count"}], add)
         for _ in range(n):
             add(with_term(rng, lambda r, s, sh: {"k": r.choice(["count", "for_each"])}))
     elif prop == "C05":
+        lag_jobs(rng, tier, [lambda r, s_, sh: any_term(r, s_, sh)], add)
         matrix(rng, tier, [lambda r, s_, sh: collect_term(r, s_, sh), lambda r, s_, sh: {"k": "collect_x"},
                            lambda r, s_, sh: {"k": "count"}, lambda r, s_, sh: {"k": "for_each"},
                            reduce_term, find_term], add)
@@ -268,11 +286,19 @@ def jobs_for(prop, tier, seed):
             p["term"] = t
             add(norm(p))
     elif prop == "C07":
+        lag_jobs(rng, tier, [lambda r, s_, sh: {"k": "collect_x"}], add)
         matrix(rng, tier, [lambda r, s_, sh: {"k": "collect_x"}], add)
         big_jobs(rng, tier, [lambda r, s_, sh: {"k": "collect_x"}], add)
         for _ in range(n):
             add(with_term(rng, lambda r, s, sh: {"k": "collect_x"}))
     elif prop == "C08":
+        for i in range(30 if tier == "quick" else 300):
+            # more threads than one lag period; the source must still be busy at every spawn decision
+            nt = rng.choice([5, 6, 7, 8, 9, 10])
+            p = gen_prog(rng, src=rng.choice(("vec", "iter", "range", "slice")), shape=rng.choice(["m", "f", "", "mf"]), n=rng.choice([40, 64]),
+                         nt=nt, cs=rng.choice([("cs", 1), ("cs", 2), ("csmin", 1), None]))
+            p["term"] = any_term(rng, p["src"], shape_of(p))
+            add(norm(p), "rand", sticky=0.9)
         for i in range(12):
             p = gen_prog(rng, src=rng.choice(("vec", "iterx")), shape=rng.choice(["", "m", "f"]), n=24, nt=rng.choice([2, 3, 4]), cs=("cs", 1))
             p["term"] = {"k": "reduce", "op": "add"} if i % 3 else {"k": "min_by_key", "t": [rng.randrange(3) for _ in range(V)]}
@@ -289,6 +315,7 @@ def jobs_for(prop, tier, seed):
             p = with_term(rng, lambda r, s, sh: any_term(r, s, sh, ordered=True), nt=1)
             add(p, "free")
     elif prop == "C10":
+        lag_jobs(rng, tier, [find_term], add)
         for i in range(n):
             r = rng.random()
             if r < 0.3:
@@ -346,6 +373,7 @@ def jobs_for(prop, tier, seed):
             p["term"] = {"k": "none" if big else rng.choice(["count", "collect_vec", "first", "none"])}
             add(norm(p), "free")
     elif prop == "C13":
+        lag_jobs(rng, tier, [lambda r, s_, sh: any_term(r, s_, sh)], add)
         matrix(rng, tier, [lambda r, s_, sh: any_term(r, s_, sh)], add)
         single_worker_jobs(rng, tier, add)
         for _ in range(n):
@@ -369,6 +397,7 @@ def jobs_for(prop, tier, seed):
                 continue
             add(p)
     elif prop == "C15":
+        lag_jobs(rng, tier, [lambda r, s_, sh: any_term(r, s_, sh)], add)
         capacity_sweep(rng, tier, add, 30)
         single_worker_jobs(rng, tier, add)
         lens = list(range(0, 41)) + [63, 64, 65, 100, 257, 1000]
